@@ -153,6 +153,17 @@ func VerifC11Reorganize(maxOld int, maxNew int) {
 	c.casper = casper.NewCasper(s, nil, []*state.Checkpoint{{Height: 0, Status: state.Justified}})
 	c.cond.L = new(sync.Mutex)
 
+	switch {
+	case nOld > nNew && nNew > 0:
+		verifReach("VerifC11Reorganize:longer-to-shorter")
+	case nOld > 0 && nNew > nOld:
+		verifReach("VerifC11Reorganize:shorter-to-longer")
+	case nOld == 0 && nNew > 0:
+		verifReach("VerifC11Reorganize:extension")
+	case nOld > 0 && nNew == 0:
+		verifReach("VerifC11Reorganize:rollback-to-ancestor")
+	}
+
 	// (a) the attach / detach lists
 	attach, detach, err := c.calcReorganizeChain(newBest, oldBest)
 	verifAssert(err == nil, "calc-no-error")
@@ -191,14 +202,4 @@ func VerifC11Reorganize(maxOld int, maxNew int) {
 		verifAssert(!c.InMainChain(h.Hash()), "detached-block-not-reported-in-main-chain")
 	}
 
-	switch {
-	case nOld > nNew && nNew > 0:
-		verifReach("VerifC11Reorganize:longer-to-shorter")
-	case nOld > 0 && nNew > nOld:
-		verifReach("VerifC11Reorganize:shorter-to-longer")
-	case nOld == 0 && nNew > 0:
-		verifReach("VerifC11Reorganize:extension")
-	case nOld > 0 && nNew == 0:
-		verifReach("VerifC11Reorganize:rollback-to-ancestor")
-	}
 }
